@@ -10,6 +10,7 @@ import JoinModel.Props.Common
 import JoinModel.Templates
 import JoinModel.Lemmas.TokCount
 import JoinModel.Lemmas.ParseInit
+import JoinModel.Lemmas.PrintCount
 import JoinModel.Props.C17
 namespace JoinModel.Props.C10
 open JoinModel JoinModel.Props
@@ -119,7 +120,6 @@ theorem accepted_conserves_tokens (o : Oracle) (toks : Toks) (s : String) (hm : 
     stepsCount s code.steps = cntProgram s p :=
   (gen_conserves_tokens s hm p kind code h (parse_initial_only_first o toks p hparse) hnames).1
 
-instance (s : String) : Decidable (UserIdent s) := by unfold UserIdent; infer_instance
 
 /-- Non-vacuity of `Marker`: `user_marker` is no template word, none of the generator's own words, and no internal name
     (those start with `__`, Props/C17). -/
@@ -140,6 +140,42 @@ example :
     cntProgram "user_marker" p = 3 ∧
       (match gen p ⟨false, false, false⟩ with | .ok code => stepsCount "user_marker" code.steps | .error _ => 0) = 3 := by
   decide
+
+/-- **…and exactly once in the emitted token stream.**  `printCode` is the printer that K1 compares token for token with the real
+    expansion: the occurrences of a user identifier `s` in the whole expansion are its occurrences in the operands of the
+    program plus those in the handler — nothing dropped, nothing duplicated, nothing of the macro's own helper items,
+    names, keywords, patterns or paths counted (`PMarker`: `s` is none of the ≈50 identifiers the templates and the
+    printer write themselves; `OtherTokensFree`: the `let` patterns, the joiner and the futures path do not mention `s`,
+    the occurrences counted are those of the operands). -/
+theorem expansion_conserves_tokens (s : String) (hm : PMarker s) (p : Input) (kind : Kind) (code : Code)
+    (h : gen p kind = .ok code) (hinit : InitialOnlyFirst p) (ho : OtherTokensFree s p) :
+    cntToks s (printCode code) = cntProgram s p + cntToks s ((p.handler.map (·.2)).getD []) :=
+  expansion_count hm p kind code h hinit ho
+
+/-- the same from the caller's tokens -/
+theorem accepted_expansion_conserves_tokens (o : Oracle) (toks : Toks) (s : String) (hm : PMarker s) (p : Input)
+    (kind : Kind) (code : Code) (hparse : parseMacroInput o toks = .ok p) (h : gen p kind = .ok code)
+    (ho : OtherTokensFree s p) :
+    cntToks s (printCode code) = cntProgram s p + cntToks s ((p.handler.map (·.2)).getD []) :=
+  expansion_count hm p kind code h (parse_initial_only_first o toks p hparse) ho
+
+/-- Non-vacuity of `PMarker` -/
+theorem pmarker_example : PMarker "user_marker" :=
+  { toMarker := marker_example, words := (by decide), inspectFn := (by decide), tbFn := (by decide) }
+
+/-- …and of the conclusion, on printed tokens: the program of the example above under `join!` and under
+    `try_join_async_spawn!` with a handler that mentions the marker once. -/
+example :
+    let um : Toks := [.ident "user_marker"]
+    let hd : Toks := [pu '|', .ident "x", pu '|', .ident "user_marker"]
+    let bs : List Branch := [⟨none, [⟨.initial, false, .none, [⟨.expr, [.ident "a"]⟩]⟩, ⟨.map, false, .none, [⟨.expr, um⟩]⟩]⟩,
+      ⟨none, [⟨.initial, false, .none, [⟨.block, [brace um]⟩]⟩, ⟨.andThen, true, .wrap, [⟨.expr, Tables.wrapperPlaceholder⟩]⟩,
+              ⟨.map, false, .none, [⟨.expr, um⟩]⟩]⟩]
+    (match gen { handler := some (.map, hd), branches := bs } ⟨true, true, true⟩ with
+      | .ok code => cntToks "user_marker" (printCode code) | .error _ => 0) = 4 ∧
+    (match gen { branches := bs } ⟨false, false, false⟩ with
+      | .ok code => cntToks "user_marker" (printCode code) | .error _ => 0) = 3 := by
+  decide +kernel
 
 /-- Non-vacuity of `UserIdent`: an identifier such as `user_marker` never occurs among the templates' own tokens, whereas
     `map` does (the template of `|>`): the hypothesis of `emit_conserves_tokens` holds for the former only. -/
